@@ -292,7 +292,7 @@ def parked : Node :=
 
 def env : List (String × String) :=
   [("number", "0"), ("ts", "100"), ("prevrandao", generatedHash 0), ("basefee", "0"), ("gasprice", "0"), ("value", "0"),
-   ("coinbase", "0000000000000000000000000000000000000000"), ("txid", "ab")]
+   ("coinbase", "0000000000000000000000000000000000000000"), ("txid", "ab"), ("blockgaslimit", "18446744073709551615")]
 
 /-- nonce 0 arrives: two runs (the submitted transaction and the drained successor), the account row after them -/
 def evRuns : List Ev :=
